@@ -844,7 +844,15 @@ pub fn gen_packet(t: &mut Tape) -> GenPacket {
             b.extend_from_slice(&hw.to_be_bytes());
             b.extend_from_slice(&(if t.chance(3, 4) { t.below(9) as u16 } else { t.u16() }).to_be_bytes());
             b.extend(t.bytes(8));
-            b.extend_from_slice(&et.to_be_bytes());
+            // protocol type: mostly the ether type of what follows; sometimes one of the Linux
+            // non-standard values (0x0001..0x001c, 0x00f5..0x00fa) or their neighbours
+            let proto = if t.chance(1, 8) {
+                intent.perturb.push("sll:nonstandard-proto".into());
+                t.pick(&[0x0000u16, 0x0001, 0x0003, 0x0009, 0x000a, 0x000b, 0x000c, 0x000e, 0x000f, 0x0010, 0x0011, 0x0012, 0x0015, 0x001c, 0x001d, 0x00f4, 0x00f5, 0x00fa, 0x00fb])
+            } else {
+                et
+            };
+            b.extend_from_slice(&proto.to_be_bytes());
             b.extend(body);
             intent.layers.insert(0, "sll".into());
             (Start::LinuxSll, b)
